@@ -126,7 +126,7 @@ def _cleanup_units():
              target='props.c01:run_cleanup',
              params={'text': __import__('pyvc.api', fromlist=['Cat']).Cat(
                  Choice(Const(''), Const(' '), Const(': '), Const(', '), Const('\n')), clean_block,
-                 Choice(Const(''), Const(','), Const(' of'), Const(', and'), Const(' in the'), Const(';\n')))},
+                 Choice(Const(''), Const(','), Const(' of'), Const(', and'), Const(' in the'), Const(';\n'), Const(' all of'), Const(', all in the')))},
              ghost={}, max_unroll=24,
              ensures=[('only_the_block_remains', lambda text, result: in_re(result, r'[a-z0-9/(][a-z0-9/ ()½¼#]{0,20}[0-9)½¼]')
                        and result in text)]),
